@@ -219,6 +219,21 @@ pub const IMAGES: &[&str] = &[
     "a&lt;b",
     "]]>",
 ];
+/// image reference composed of fragments of every kind — plain ASCII, each XML-special character, entity look-alikes,
+/// 2-, 3- and 4-byte UTF-8 characters, characters from U+0080..U+00FF — in random order, so that escaping and
+/// non-ASCII text meet in one string
+pub fn rand_image(rng: &mut Rng) -> String {
+    const FRAGS: &[&str] = &[
+        "logo", ".png", "https://exemple.fr/", "C:\\Users\\", " ", "?w=64", "&", "<", ">", "\"", "'", "&amp;", "&lt;", "&#38;", "&quot",
+        "\u{e9}", "caf\u{e9}", "\u{df}", "\u{ff}", "\u{80}", "\u{c3}\u{a9}", "\u{20ac}", "\u{4e2d}\u{6587}", "\u{1f680}", "\u{0301}", "=", ";", "/", "%20", "#frag",
+    ];
+    let k = 1 + rng.below(6);
+    let mut s = String::new();
+    for _ in 0..k {
+        s.push_str(*rng.pick(FRAGS));
+    }
+    s
+}
 /// dyadic value with at most 3 fractional bits in [lo, hi)
 pub fn rand_dyadic(rng: &mut Rng, lo: i64, hi: i64) -> f64 {
     let k = rng.below(4) as u32;
